@@ -521,6 +521,12 @@ func (m *metadataAPI) ResumeStream(ctx context.Context, req *proto.ResumeStreamO
 	wg.Add(len(req.Partitions))
 	for _, partitionID := range req.Partitions {
 		partition := m.GetPartition(req.Stream, partitionID)
+		if partition == nil {
+			// The partition is gone since the resume was applied, e.g. the
+			// stream was deleted or the metadata store is being reset.
+			wg.Done()
+			continue
+		}
 		m.startGoroutineWithArgs(func(args ...interface{}) {
 			m.waitForPartitionLeader(ctx, args[0].(*proto.Partition))
 			wg.Done()
